@@ -2,6 +2,7 @@
 //!
 //! Command handlers that use proper command processing pipeline for redis.call()
 
+use crate::storage::commands::RedisInt;
 use std::sync::Arc;
 use std::str;
 use std::collections::HashMap;
@@ -64,7 +65,7 @@ pub fn handle_eval_with_db(storage: &Arc<StorageEngine>, parts: &[RespFrame], db
     let num_keys = match &parts[2] {
         RespFrame::BulkString(Some(bytes)) => {
             match str::from_utf8(bytes) {
-                Ok(s) => match s.parse::<usize>() {
+                Ok(s) => match s.parse_redis::<usize>() {
                     Ok(n) => n,
                     Err(_) => return Ok(RespFrame::error("ERR invalid number of keys")),
                 },
@@ -159,7 +160,7 @@ pub fn handle_evalsha_with_db(storage: &Arc<StorageEngine>, parts: &[RespFrame],
     let num_keys = match &parts[2] {
         RespFrame::BulkString(Some(bytes)) => {
             match str::from_utf8(bytes) {
-                Ok(s) => match s.parse::<usize>() {
+                Ok(s) => match s.parse_redis::<usize>() {
                     Ok(n) => n,
                     Err(_) => return Ok(RespFrame::error("ERR invalid number of keys")),
                 },
